@@ -324,7 +324,7 @@ func (k *KDCReqBody) Unmarshal(b []byte) error {
 	k.KDCOptions = m.KDCOptions
 	if len(k.KDCOptions.Bytes) < 4 {
 		tb := make([]byte, 4-len(k.KDCOptions.Bytes))
-		k.KDCOptions.Bytes = append(tb, k.KDCOptions.Bytes...)
+		k.KDCOptions.Bytes = append(k.KDCOptions.Bytes, tb...)
 		k.KDCOptions.BitLength = len(k.KDCOptions.Bytes) * 8
 	}
 	k.CName = m.CName
